@@ -392,7 +392,7 @@ def make_batches(units, jobs):
     return batches
 
 
-MIRSYM_PROPS = {"C01", "C11", "C04", "C19", "C18", "C02", "C08", "C09", "C05", "C12", "C20", "C07", "C16", "C13", "C03", "C10", "C14", "C15", "C06"}
+MIRSYM_PROPS = {"C01", "C11", "C04", "C19", "C18", "C02", "C08", "C09", "C05", "C12", "C20", "C07", "C16", "C13", "C03", "C10", "C14", "C15", "C06", "C17"}
 MIRSYM_PRIMS = {"-true", "-false", "-print", "-print0", "-prune", "-quit", "-empty", "-readable"}
 
 
